@@ -39,6 +39,34 @@ def saturated_scenario(sid, typ):
     return {"id": sid, "shards": 1, "servers": ["A"], "store": "local", "upstreams": [up], "steps": steps}
 
 
+def silent_scenarios(sid0):
+    """instances whose heartbeats do not arrive (never, or not any more) while their reports / acquires still do: what is recorded for them must be
+    reclaimed all the same; a heartbeating neighbour keeps its state"""
+    out = []
+    probe = [{"k": "obs"}, {"k": "capacity", "up": "uc1"}, {"k": "capacity", "up": "uc2"}]
+    for k, (pre, gap, call) in enumerate([([], 0, "acquire"), (["hb"], 5000, "acquire"), (["hb"], 3500, "acquire"), ([], 0, "report"), (["hb"], 5000, "report"), (["hb"], 5000, "both"), ([], 0, "both")]):
+        hist = [{"k": "hb", "i": 2}]
+        steps = [{"k": "hb", "inst": "i2"}, {"k": "report", "up": "ua1", "inst": "i2", "uc": "full", "lc": "honest"}, {"k": "acquire", "up": "uc2", "inst": "i2", "tokens": 1}]
+        steps += [{"k": "hb", "inst": "i1"} for _ in pre]
+        g = gap
+        while g > 0:
+            steps += [{"k": "sleep", "ms": min(g, 2000)}, {"k": "hb", "inst": "i2", "keepalive": True}]
+            g -= 2000
+        if call in ("acquire", "both"):
+            steps.append({"k": "acquire", "up": "uc1", "inst": "i1", "tokens": 2})
+        if call in ("report", "both"):
+            steps.append({"k": "report", "up": "ua1", "inst": "i1", "uc": "full", "lc": "honest"})
+        steps += probe
+        for j in range(23):
+            steps += [{"k": "sleep", "ms": 2000}, {"k": "hb", "inst": "i2", "keepalive": True}]
+            if j in (1, 10, 22):
+                steps += probe
+        sc = to_scenario1(sid0 + k, [], random.Random(k))
+        sc.update({"shards": 1, "store": "local" if k % 2 else "k8s", "steps": steps})
+        out.append(sc)
+    return out
+
+
 def to_scenario(sid, hist, rng):
     sc = to_scenario1(sid, hist, rng)
     if sid % 4 == 3:
@@ -138,10 +166,13 @@ def main(tier, replay):
         if replay:
             scs = [json.load(open(replay))["scenario"]]
         else:
-            mc = vlib.tlc("limiter", "Reclaim", "Reclaim.cfg", workers=8, timeout=1800, consts=None if tier == "quick" else {"MaxSteps": 11})
-            if mc.violation:
-                raise Infra("Reclaim.tla violates %s" % mc.violated())
-            states, trans = mc.distinct, mc.generated
+            # fixed: an acquiring instance is registered for the heartbeat timeout; pinned (refuted): the in-flight count of an instance the
+            # server does not know (heartbeats expired or never arrived) is looked at by no cleanup pass
+            for variant, expect in (("fixed", False), ("pinned", True)):
+                mc = vlib.tlc("limiter", "Reclaim", "Reclaim.cfg", workers=8, timeout=3000, consts={"Variant": '"%s"' % variant, "MaxSteps": 7 if tier == "quick" else 9})
+                if bool(mc.violation) != expect:
+                    raise Infra("Reclaim.tla variant %s: unexpected result %s" % (variant, mc.violated()))
+                states, trans = states + mc.distinct, trans + mc.generated
             n = 150 if tier == "quick" else 2500
             gen = vlib.tlc("limiter", "ReclaimGen", "ReclaimGen.cfg", workers=1, timeout=900, simulate="num=%d" % n, depth=15, tlc_seed=seed)
             hists = list({vlib.canon(h): h for h in gen.json_prints("HIST")}.values())
@@ -151,6 +182,7 @@ def main(tier, replay):
                 raise Infra("too few histories")
             scs = [to_scenario(i + 1, h, rng) for i, h in enumerate(hists)]
             scs += [saturated_scenario(900001, "mif"), saturated_scenario(900002, "tb")]
+            scs += silent_scenarios(910001)
         binp = os.path.join(wd, "limsrv.test")
         vlib.go_test_build("./limsrv", binp)
         traces, crashed = vlib.run_test_driver(binp, scs, wd, timeout=1500)
